@@ -10,6 +10,9 @@ tier = sys.argv[sys.argv.index("--tier") + 1] if "--tier" in sys.argv else "quic
 inplace = "--inplace" in sys.argv
 d = os.path.join("/verif/seeded", name)
 pid = json.load(open(os.path.join(d, "meta.json")))["property"]
+own_pid = pid
+if "--check" in sys.argv:      # run ANOTHER property's check against this seed (cross-property detection)
+    pid = sys.argv[sys.argv.index("--check") + 1]
 def sh(cmd, **kw):
     p = subprocess.run(cmd, shell=True, stdout=subprocess.PIPE, stderr=subprocess.STDOUT, text=True, **kw)
     return p.returncode, p.stdout
@@ -39,5 +42,5 @@ desc = [l.strip() for l in out.split("\n") if l.strip().startswith("violation:")
 res = {"check": pid, "tier": tier, "exit": rc, "caught": rc == 1 and bool(viol), "wall_s": round(time.time() - t0, 1),
        "violation_lines": viol[:3], "how": [x[:400] for x in desc[:3]],
        "with_failing_input": any("no-failing-input-found" not in v for v in viol)}
-json.dump(res, open(os.path.join(d, "result_%s.json" % tier), "w"), indent=1)
+json.dump(res, open(os.path.join(d, "result_%s%s.json" % (tier, "" if pid == own_pid else "_" + pid)), "w"), indent=1)
 print(name, json.dumps(res)[:700])
